@@ -917,6 +917,30 @@ def check_static(st):
         raise common.BuildError("driver world differs from props/c20.py constants: %s" % {k: st[k] for k in ("unbonding", "pools", "gov")})
 
 
+def expand(h, ob, rr, tier, two_checkpoints):
+    """insert the message x sender matrix into a history, at its end and (optionally) at one earlier checkpoint;
+    ob = the driver's observation of the history alone"""
+    cur = Snap(ob["init"])
+    hist = {"pos": {}, "lock": {}, "denom": {}}
+    nops = len(h["ops"])
+    cps = sorted(set([nops - 1] + ([rr.range(nops // 3, max(nops // 3, nops - 2))] if two_checkpoints else [])))
+    ops = []
+    for oi, (o, st) in enumerate(zip(h["ops"], ob["steps"])):
+        ops.append(o)
+        if st["r"] == 0 and st.get("post"):
+            for i, p in cur.pos.items():
+                hist["pos"].setdefault(i, set()).add(p["owner"])
+            for i, l in cur.locks.items():
+                hist["lock"].setdefault(i, set()).add(l["owner"])
+            for den, d in cur.denoms.items():
+                if d["admin"] >= 0:
+                    hist["denom"].setdefault(den, set()).add(d["admin"])
+            cur = Snap(st["post"])
+        if oi in cps:
+            ops += build_matrix(rr.fork(("cp", oi)), cur, ob["static"], hist, tier)
+    return {"setup": h["setup"], "ops": ops}
+
+
 def plan(r, tier, n_cases):
     """pass 1: run the histories alone; pass 2: the same histories with the matrix inserted at the checkpoints"""
     hists = [gen_history(r.fork(("h", i)), tier) for i in range(n_cases)]
@@ -927,26 +951,7 @@ def plan(r, tier, n_cases):
             cases.append({"setup": h["setup"], "ops": h["ops"], "broken": ob["err"]})
             continue
         check_static(ob["static"])
-        rr = r.fork(("m", ci))
-        cur = Snap(ob["init"])
-        hist = {"pos": {}, "lock": {}, "denom": {}}
-        nops = len(h["ops"])
-        cps = sorted(set([nops - 1] + ([rr.range(nops // 3, max(nops // 3, nops - 2))] if tier != "quick" or ci % 2 == 0 else [])))
-        ops = []
-        for oi, (o, st) in enumerate(zip(h["ops"], ob["steps"])):
-            ops.append(o)
-            if st["r"] == 0 and st.get("post"):
-                for i, p in cur.pos.items():
-                    hist["pos"].setdefault(i, set()).add(p["owner"])
-                for i, l in cur.locks.items():
-                    hist["lock"].setdefault(i, set()).add(l["owner"])
-                for den, d in cur.denoms.items():
-                    if d["admin"] >= 0:
-                        hist["denom"].setdefault(den, set()).add(d["admin"])
-                cur = Snap(st["post"])
-            if oi in cps:
-                ops += build_matrix(rr.fork(("cp", oi)), cur, ob["static"], hist, tier)
-        cases.append({"setup": h["setup"], "ops": ops})
+        cases.append(expand(h, ob, r.fork(("m", ci)), tier, tier != "quick" or ci % 2 == 0))
     return cases
 
 
